@@ -302,7 +302,10 @@ func (c *Conn) GetNextActionFromByte(start int64) *NextActionInfo {
 		ind := sort.Search(len(actions),
 			func(i int) bool { return actions[i].getByte() >= start })
 
-		return c.GetNextActionFromIndex(int64(ind))
+		// The locks are held already. Taking the read locks a second time (as
+		// GetNextActionFromIndex does) deadlocks as soon as another connection asks for the
+		// write lock in between.
+		return nextActionFromIndex(actions, int64(ind))
 	}
 
 	return &NextActionInfo{
@@ -325,8 +328,12 @@ func (c *Conn) GetNextActionFromIndex(ind int64) *NextActionInfo {
 	c.Shapes.M[c.Context.URLRegex].RLock()
 	defer c.Shapes.M[c.Context.URLRegex].RUnlock()
 
-	actions := c.Shapes.M[c.Context.URLRegex].Shape.Actions
+	return nextActionFromIndex(c.Shapes.M[c.Context.URLRegex].Shape.Actions, ind)
+}
 
+// nextActionFromIndex returns the first action at or after the index that has a non zero count.
+// The caller holds the locks that protect actions.
+func nextActionFromIndex(actions []Action, ind int64) *NextActionInfo {
 	if l := int64(len(actions)); l != 0 {
 
 		for ind < l && (actions[ind].getCount() == 0) {
